@@ -56,17 +56,23 @@ func (propC06) Cases(tier string) int {
 func (propC06) Run(ctx *Ctx, index int) {
 	var p c06Prog
 	t := ctx.Prog
-	large := ctx.Tier == "thorough" && index%2 == 1
-	if ctx.Tier != "thorough" && index%10 == 9 {
-		large = true
+	// drawn from the tape, not derived from the index (which would send all the
+	// large configurations to the same worker processes)
+	var large bool
+	if ctx.Tier == "thorough" {
+		large = t.Choose(2) == 1
+	} else {
+		large = t.Choose(10) == 9
 	}
 	// The tape still decides everything: cell 0 selects the matrix entry so that
 	// a replayed or minimised case is self-contained.
 	if !large {
 		sel := t.Choose(len(c06Matrix))
 		if !ctx.replay {
-			// record mode: walk the matrix systematically by case index
-			sel = (index / 1) % len(c06Matrix)
+			// record mode: walk the matrix systematically by case index (index/16:
+			// the driver hands index i to worker i mod 16, and the matrix has 60
+			// entries - without the division a worker would only ever see 15 of them)
+			sel = (index/16 + index) % len(c06Matrix)
 			ctx.Prog.Cells[len(ctx.Prog.Cells)-1] = uint32(sel)
 		}
 		p = c06Matrix[sel]
